@@ -291,3 +291,13 @@ for p in ["C17", "C07", "C13", "C08", "C18", "C14", "C06"]:
     CHECKS[p]["harnesses"].append(H_FOLLOWER)
 CHECKS["C11"]["harnesses"].append(H_TAKESNAP)
 CHECKS["C11"]["explanation"] += " TAKE-SNAPSHOT: takeSnapshot with the real FSM goroutine and main loop: the sink is stamped with the FSM goroutine's (lastIndex,lastTerm) and the main loop's committed configuration, refused while that configuration is not yet applied, durable before lastSnapshot moves and before compaction; failures move nothing."
+
+H_GLUE = {"fn": "vh_quorum_glue", "what": "quorum intersection over the real quorumSize and nextConfiguration: arbitrary voter subsets of a configuration and of its successor (or itself)",
+          "bounds_quick": "N<=3 servers (+1 added)", "bounds_thorough": "N<=4", "covers": ["glue.changed", "glue.end"]}
+H_VALIDATE = {"fn": "vh_validate_config", "what": "ValidateConfig on arbitrary durations", "bounds": "full 64-bit durations", "covers": ["validate.accepted", "validate.rejected"]}
+H_PLSHUT = {"fn": "vh_processlogs_shutdown", "what": "processLogs with a full FSM channel after shutdown", "bounds": "W=2", "covers": ["plshutdown.end"]}
+for p in ["C01", "C07", "C05"]:
+    CHECKS[p]["harnesses"].append(H_GLUE)
+for p in ["C13", "C08"]:
+    CHECKS[p]["harnesses"].append(H_VALIDATE)
+CHECKS["C17"]["harnesses"].append(H_PLSHUT)
